@@ -108,6 +108,8 @@ func checkC14(c *Ctx) {
 	c.Rule(O1, "drain after the started mark; drains exactly the snapshot", 1)
 	c.Rule(O2, "started mark not visible before the drain (or common lock)", 1)
 
+	ruleStartStamp(c, b, "C14.S1")
+
 	// ------------------------------------------------------------------ L1 (receiver side)
 	apps := b.appendStores()
 	if len(apps) == 0 {
